@@ -86,6 +86,8 @@ func TestCheck(t *testing.T) {
 	}
 	all := perms4()
 	few := [][4]int{{0, 1, 2, 3}, {3, 2, 1, 0}}
+	// thorough, second process start: the rotations of the identity and of the reverse order (8 of the 24)
+	rot := [][4]int{{0, 1, 2, 3}, {1, 2, 3, 0}, {2, 3, 0, 1}, {3, 0, 1, 2}, {3, 2, 1, 0}, {2, 1, 0, 3}, {1, 0, 3, 2}, {0, 3, 2, 1}}
 	bc := &bCtx{r: r, t: t, fin: map[[32]byte]int{}}
 	ncpu := runtime.GOMAXPROCS(0)
 	var wg sync.WaitGroup
@@ -97,13 +99,13 @@ func TestCheck(t *testing.T) {
 		exploreRunner(r, ev.Pick(r, 3, 4), max(2, ncpu/4))
 		r.Set("a_wall_s", time.Since(t0).Seconds())
 	}()
-	exploreShapes(bc, shapes, all, ev.Pick(r, few, all), 2, r.Thorough(), ncpu)
+	exploreShapes(bc, shapes, all, ev.Pick(r, few, rot), 2, r.Thorough(), ncpu)
 	wg.Wait()
 	r.Set("b_shapes", int64(len(shapes)))
 	r.Set("b_distinct_final_images", int64(len(bc.fin)))
 	r.Set("distinct_nontrivial", r.Get("states"))
 	r.Set("traces_validated_against_impl", r.Get("evaluations"))
 	r.Set("rule", "a: BFS over (durable image, completed set): every process start = registry (1..4 migrations x optional flags) x one scripted outcome per Migrate/Before call (19 outcomes) x crash after / failure of every commit; "+
-		"b: BFS over durable images of old-layout chains: every commit order of the ingest ranges x {uninterrupted, crash after each commit, cancel at each commit, cancel at first read of each range, cancel before run, failure of each commit}, <=2 interruptions then a clean run (quick tier: second interruption restricted to crash / cancel-at-commit and 2 commit orders; runner BFS depth 3 quick / 4 thorough process starts); non-trivial = distinct durable images")
+		"b: BFS over durable images of old-layout chains: every commit order of the ingest ranges x {uninterrupted, crash after each commit, cancel at each commit, cancel at first read of each range, cancel before run, failure of each commit}, <=2 interruptions then a clean run (second process start: 8 commit orders thorough; quick tier: 2 orders and only crash / cancel-at-commit; runner BFS depth 3 quick / 4 thorough process starts); non-trivial = distinct durable images")
 	r.Finish()
 }
